@@ -1116,6 +1116,22 @@ impl<'r> Gen<'r> {
             1 => {
                 self.note("let-mut");
                 let ty = self.gen_ty(2);
+                // occasionally `let mut x = <expr mentioning x>`: the new binding shadows a variable
+                // of the same name that its own initializer still refers to
+                let shadowed: Vec<Var> = self.visible_vars().into_iter().filter(|v| v.name != "_" && !matches!(v.ty, Ty::Array(..)) || false).collect();
+                if self.in_head == 0 && !shadowed.is_empty() && self.rng.chance(1, 8) {
+                    let old = self.rng.pick(&shadowed).clone();
+                    self.note("let-mut-shadowing-its-own-initializer");
+                    let init = match &old.ty {
+                        Ty::Int(t) if self.rng.bool() => {
+                            let other = self.gen_expr(&old.ty, 1);
+                            e(ExprKind::Bin(if t.signed { BinOp::BitXor } else { BinOp::BitAnd }, Box::new(e(ExprKind::Var(old.name.clone()), old.ty.clone())), Box::new(other)), old.ty.clone())
+                        }
+                        _ => e(ExprKind::Var(old.name.clone()), old.ty.clone()),
+                    };
+                    self.declare(&old.name, old.ty.clone(), true);
+                    return Some(Stmt::new(StmtKind::LetMut(old.name, old.ty, init, true)));
+                }
                 let init = self.gen_expr(&ty, d);
                 let name = self.fresh("m");
                 self.declare(&name, ty.clone(), true);
